@@ -5,9 +5,11 @@
 package c03
 
 import (
-	"github.com/invopop/gobl/bill"
+	"encoding/json"
+	"fmt"
 	"strings"
 
+	"github.com/invopop/gobl/bill"
 	"github.com/invopop/gobl/l10n"
 	"github.com/invopop/gobl/tax"
 
@@ -53,6 +55,26 @@ func Run(c *core.Ctx) int {
 		c.TieBroken("drive:C03/model", err.Error(), nil)
 		return c.Finish("", nil)
 	}
+	// every real output also goes through the Lean oracle Spec.C03.readdOk (the statement of C03 as one
+	// executable function, proved of the model by Props.C03.currency_rule_readds)
+	type leanCase struct {
+		doc  *calcproto.Doc
+		what string
+	}
+	var leanReqs []string
+	var leanCases []leanCase
+	type recalc struct {
+		doc, edited *calcproto.Doc
+		edit        string
+		sub         uint32
+		goErrs      string
+		leanReq     string
+	}
+	var recalcs []recalc
+	toLean := func(d *calcproto.Doc, inv *bill.Invoice, sub uint32, what string) {
+		leanReqs = append(leanReqs, "readd "+fmt.Sprint(sub)+" "+calcproto.EncodeOut(inv))
+		leanCases = append(leanCases, leanCase{d, what})
+	}
 	for i, d := range docs {
 		r := res[i]
 		inv := d.Invoice()
@@ -91,6 +113,7 @@ func Run(c *core.Ctx) int {
 		if i%997 == 0 {
 			c.Sample(map[string]any{"doc": d, "go": r.GoOut})
 		}
+		toLean(d, inv, sub, "the calculated document")
 		if errs := calcproto.ReaddIdentities(inv, sub); len(errs) > 0 {
 			c.Fail("", "presented figures do not re-add under the currency rule: "+strings.Join(errs, "; "), c01.Case{Doc: d})
 			continue
@@ -111,15 +134,16 @@ func Run(c *core.Ctx) int {
 				continue
 			}
 			c.Count("recalc-after-edit:"+calcproto.Edits[e].Name, 1)
-			if calcproto.OutsideExactDomain(a) {
-				c.Count("recalc-after-edit:skipped-outside-2^52-domain", 1)
-				continue
-			}
-			if errs := calcproto.ReaddIdentities(a, sub); len(errs) > 0 {
-				c.Fail("", "after "+calcproto.Edits[e].Name+" and a second calculation the presented figures do not re-add: "+strings.Join(errs, "; "), c01.Case{Doc: d})
-				break
+			// the recalculated figures are judged below, once the model has said whether the EDITED
+			// document is still inside the 2^52 domain (dropping a discount can move it out)
+			if ed, ok := calcproto.EditDoc(d, e); ok {
+				recalcs = append(recalcs, recalc{doc: d, edited: ed, edit: calcproto.Edits[e].Name, sub: sub,
+					goErrs: strings.Join(calcproto.ReaddIdentities(a, sub), "; "), leanReq: "readd " + fmt.Sprint(sub) + " " + calcproto.EncodeOut(a)})
+			} else {
+				c.Count("skipped:recalc-edit-not-expressible-on-the-description", 1)
 			}
 			if diff != "" {
+				// both copies went through the same arithmetic: independent of the magnitude domain
 				c.Fail("", "a figure of the first calculation survives the second one: "+diff, c01.Case{Doc: d})
 				break
 			}
@@ -143,7 +167,57 @@ func Run(c *core.Ctx) int {
 			c.TieBroken("drive:C03/calc", "Go output differs from the model although the identities hold", c01.Case{Doc: d})
 		}
 	}
-	return c.Finish("random documents under the currency rule (explicit, or Greek regime default), fixed discount/charge/advance amounts at the currency's precision, prices with up to 6 decimals, tax-included prices, currencies with 0/2/3 decimals; the identities are recomputed from the presented figures only; non-trivial = at least one line", nil)
+	// domain of the recalculated documents
+	editedDocs := make([]*calcproto.Doc, len(recalcs))
+	for k := range recalcs {
+		editedDocs[k] = recalcs[k].edited
+	}
+	res2, err := c01.RunDocs(c, editedDocs)
+	if err != nil {
+		c.TieBroken("drive:C03/model", err.Error(), nil)
+		return c.Finish("", nil)
+	}
+	failedRecalc := map[*calcproto.Doc]bool{}
+	for k, rc := range recalcs {
+		if r2 := res2[k]; !r2.Agree || r2.Skipped != "" || r2.GoErr != "" {
+			c.Count("skipped:recalc-outside-2^52-domain", 1)
+			continue
+		}
+		c.Count("recalc-judged", 1)
+		if rc.goErrs != "" && !failedRecalc[rc.doc] {
+			failedRecalc[rc.doc] = true
+			c.Fail("", "after "+rc.edit+" and a second calculation the presented figures do not re-add: "+rc.goErrs, c01.Case{Doc: rc.doc})
+		}
+		leanReqs = append(leanReqs, rc.leanReq)
+		leanCases = append(leanCases, leanCase{rc.doc, "the document recalculated after " + rc.edit})
+	}
+	verdicts, err := c.ModelProp("C03", leanReqs)
+	if err != nil {
+		c.TieBroken("drive:C03/oracle", err.Error(), nil)
+		return c.Finish("", nil)
+	}
+	failed := map[*calcproto.Doc]bool{}
+	for k, v := range verdicts {
+		lc := leanCases[k]
+		switch {
+		case v == "1":
+			c.Count("lean-oracle:readdOk-holds", 1)
+		case strings.HasPrefix(v, "0"):
+			c.Count("lean-oracle:readdOk-fails", 1)
+			if len(failed) == 0 {
+				// kept in the evidence even when the five printed violations are taken by the Go-side oracle
+				js, _ := json.Marshal(lc.doc)
+				c.Note("first document refused by the Lean oracle Spec.C03.readdOk (%s; failing clauses:%s): %s", lc.what, v[1:], js)
+			}
+			if !failed[lc.doc] {
+				failed[lc.doc] = true
+				c.Fail("", "Spec.C03.readdOk is false on "+lc.what+" as the real code presents it; failing clauses:"+v[1:], c01.Case{Doc: lc.doc})
+			}
+		default:
+			c.TieBroken("drive:C03/oracle", "the Lean driver did not understand the encoded output: "+v, c01.Case{Doc: lc.doc})
+		}
+	}
+	return c.Finish("random documents under the currency rule (explicit, or Greek regime default), fixed discount/charge/advance amounts at the currency's precision, prices with up to 6 decimals, tax-included prices, currencies with 0/2/3 decimals; the identities are recomputed from the presented figures only, in Go with math/big and by the Lean oracle Spec.C03.readdOk on the encoded output (first calculation and every recalculation after an edit); non-trivial = at least one line", nil)
 }
 
 // removalLeftFixedAmountFiner: RemoveIncludedTaxes divides every fixed line or
